@@ -1,20 +1,110 @@
 """C12 configuration (see lib/props.py for the format)."""
 
+_WD = ["--watchdog", "120"]     # a parser or loop that stops making progress is a hang datum (confirmed alone by the runner)
+
+
+def _leg(name, harness, quick, thorough, **kw):
+    d = dict(name=name, harness=harness, flavour="asan", mode=name, quick=quick, thorough=thorough, args=list(_WD), case_timeout=120)
+    d.update(kw)
+    return d
+
+
+_RC_PARSER = [
+    # resumable three-stage parser: every stage was left and re-entered, unconsumed bytes stayed in the receive buffer
+    "parse_waits_for_request_line", "parse_resumed_in_headers", "parse_resumed_in_body", "unconsumed_bytes_left_in_buffer",
+    "streams_with_every_split_position", "feeds_bytewise", "feeds_random_cut_sets",
+    "cut_inside-method", "cut_after-method", "cut_inside-request-line", "cut_between-cr-lf", "cut_inside-headers",
+    "cut_inside-content-length-digits", "cut_inside-blank-line", "cut_before-body", "cut_inside-body", "cut_request-boundary",
+    "body_over_1k", "body_contains_blank_line", "requests_http10", "targets_with_escapes", "targets_with_params", "targets_with_query",
+    # totality
+    "hostile_content_length_value_mutated", "hostile_missing_colon", "hostile_bare_cr", "hostile_nul", "hostile_bad_escape",
+    "hostile_unstructured", "hostile_rejected", "hostile_yielded_requests", "hostile_waiting_for_more",
+]
+_RC_SERVER = [
+    "srv_requests_delivered", "srv_responses_received",
+    # responses committed out of turn are parked and flushed when their turn comes
+    "srv_completed_inside_callback", "srv_completed_late", "srv_completed_out_of_turn", "srv_response_parked", "srv_parked_responses_flushed",
+    "srv_next_called_late", "srv_second_stage_reached",
+    # last-request detection by version and by header; connection dropped after the last response
+    "srv_closing_by_connection_header", "srv_closing_by_http10_default", "srv_http10_keep_alive_request", "srv_closing_request_answered_late",
+    "srv_requests_behind_closing_request", "srv_pipelines_keep_alive",
+    # segmentation as the live server sees it, partial writes of large responses
+    "srv_cut_inside-method", "srv_cut_between-cr-lf", "srv_cut_inside-body", "srv_cut_request-boundary", "srv_large_response",
+    "order_cases",
+    # hostile bytes and vanishing clients against the live server
+    "live_cases", "live_content_length_value_mutated", "live_client_closed_mid_stream", "live_client_reset_mid_stream",
+    "live_handlers_pending_when_client_left", "live_completed_after_server_cleanup", "live_requests_reached_handler", "live_server_dropped_connection",
+]
+_RC_FUZZ = ["fuzz_execs", "fuzz_multi_segment_execs", "fuzz_feeds_rejected", "fuzz_feeds_yielding_requests", "fuzz_inputs_with_byte_ge_0x80"]
+
 PROP = dict(
-    harnesses={"c12_parser": dict(sources=["harness/c12_parser.cpp"]),
-               "c12_server": dict(sources=["harness/c12_server.cpp"])},
+    harnesses={
+        "c12_parser": dict(sources=["harness/c12_parser.cpp"]),
+        "c12_server": dict(sources=["harness/c12_server.cpp"]),
+        "c12_fuzz": dict(sources=["harness/c12_fuzz.cpp"], ldflags=["-fsanitize=fuzzer"]),
+    },
     legs=[
-        dict(name="segment", harness="c12_parser", flavour="asan", mode="segment", quick=3000, thorough=200000),
-        dict(name="bigsplit", harness="c12_parser", flavour="asan", mode="bigsplit", quick=300, thorough=8000),
-        dict(name="hostile", harness="c12_parser", flavour="asan", mode="hostile", quick=60000, thorough=4000000),
-        dict(name="pipeline", harness="c12_server", flavour="asan", mode="pipeline", quick=3000, thorough=100000),
-        dict(name="order", harness="c12_server", flavour="asan", mode="order", quick=4280, thorough=4280, scalable=False, exhaustive=True),
-        dict(name="live", harness="c12_server", flavour="asan", mode="live", quick=3000, thorough=100000),
+        # one case = one stream of 1..6 requests fed unsegmented, split at EVERY position, byte by byte and at 6 random cut sets
+        _leg("segment", "c12_parser", 3000, 200000),
+        # bodies up to 70 kB, random cut sets only
+        _leg("bigsplit", "c12_parser", 1000, 40000),
+        _leg("hostile", "c12_parser", 120000, 3000000),
+        _leg("pipeline", "c12_server", 6000, 100000),
+        # n = 1..4 requests x completion permutations x inside-callback/late masks x closing position x {spread, same pass}
+        _leg("order", "c12_server", 4280, 4280, scalable=False, exhaustive=True),
+        _leg("live", "c12_server", 20000, 400000),
+        # one case = one libFuzzer session of 200 000 executions over a generated corpus (thorough tier only)
+        dict(name="fuzz", harness="c12_fuzz", flavour="fuzz", mode="fuzz", args=["--runs", "200000", "--maxlen", "600"],
+             quick=0, thorough=128, case_timeout=900),
     ],
-    rule="tbd",
-    assumptions=[],
-    technique="tbd",
-    level_text="tbd",
-    level_note="tbd",
-    required_counters={"all": []},
+    rule=("segment/bigsplit: one case = one generated stream of 1-6 (1-4) well-formed HTTP/1.0/1.1 requests, each with a Content-Length header "
+          "(all seven methods; targets with percent-escapes in either hex case, ;params, ?query, #fragment, empty values; 0-4 extra headers with "
+          "optional blanks around the value, ':' / tab / high bytes inside it; Content-Length with leading zeros, anywhere among the headers; bodies that "
+          "are empty, binary, all NUL, contain CRLFCRLF or look like a pipelined request; up to 300 bytes, bigsplit up to 70 kB). The stream is fed to a "
+          "RequestParser the way server_imp.cpp feeds it (append segment, parse(readable) on an exactly sized heap copy, drop the bytes it claims, collect on "
+          "kFinishedAll, stop on kFail): unsegmented, split in two at every position, byte by byte, and at 6 (12) random cut sets aimed at the landmarks; "
+          "every feed must hand out exactly the generator's request sequence (method, path, params, query, fragment, version, header map, body), never "
+          "claim more bytes than given, and end in kInit with nothing left. "
+          "hostile: one case = random bytes, protocol token soup, hostile header lines, 1-9 kB single tokens, or a valid stream with 1-3 edits (Content-Length "
+          "replaced by non-numeric / negative / 2^31 / 2^32 / 2^63 / 2^64 / 26-digit / empty / blank / '+5' / '0x10' / '1e3' text, missing colon, bare CR or LF, NULs, "
+          "deleted / duplicated / flipped bytes, truncation, broken escapes, target noise, extra header lines) fed whole, in 2 segments, in 2-8 segments and "
+          "byte by byte: parse() must return, claim no more than it got, make progress. "
+          "pipeline: a real Server on a loopback port driven pass by pass by the harness thread; 1-8 requests on one connection, 60% with a closing request "
+          "(Connection: close or HTTP/1.0 without keep-alive) last or in the middle, sent in 1-8 segments (or byte by byte) with 0-5 loop passes in between; each "
+          "handler is scripted: answered by the first or second stage of a middleware chain whose next() is called at once or 1-6 passes later, completed inside "
+          "the callback or 1-20 passes later in a scripted order; response bodies 0-20 kB, one in 8 pipelines with a 150-900 kB response through an 8 kB send buffer "
+          "and a slow reader. Observed: requests handed to the handlers (compared with the generator's truth), bytes on the client socket (responses carry the "
+          "request ordinal; exactly one each, in request order, complete, nothing behind the closing one), EOF/reset after the closing response. "
+          "order: the same machinery over the complete product n in 1..4 x permutation x inside/late mask x closing position x spacing. "
+          "live: hostile bytes to the live server in random segments, the client leaving (FIN or RST) with handlers pending, handlers completing after the "
+          "connection is gone or after Server::cleanup(): nothing may escape runLoop() or trip a sanitizer. "
+          "Non-trivial: stream of at least 2 requests or 60 bytes; pipeline with at least 2 requests, a parked response or a late closing response; hostile input "
+          "of at least 4 bytes. distinct = distinct hashes of (stream bytes, cuts, handler script)."),
+    assumptions=[
+        "well-formed means: METHOD SP target SP HTTP/1.x CRLF, header lines 'Name:' OWS value OWS CRLF with distinct canonical names, a non-empty value and blanks as the "
+        "only optional white space, an explicit Content-Length on every request (a body without one takes the rest of the segment by design and is not held to the "
+        "segmentation clause); header names in other letter case, empty header values, tabs as optional white space and chunked bodies are not generated",
+        "the bytes given to parse() are an exactly sized heap block (an over-read of one byte is an AddressSanitizer report); over-reads inside std::string copies the "
+        "parser makes itself are visible only as content differences",
+        "loopback TCP inside one thread: after the client's write() returns, the data is readable by the server in the next loop pass; a verdict that something "
+        "never happened is given only after every scripted handler has completed and 80 further passes brought no byte, no request and no completion (the last 20 of "
+        "them wait 3 ms each on the socket)",
+        "requests sent behind a closing request must not be answered; when the client keeps talking after its closing request all responses are kept below 20 kB so "
+        "that the kernel's reset-on-close-with-unread-data cannot truncate a response and be mistaken for a server defect",
+        "the client never half-closes: it closes only after the verdict; a peer that sends FIN is treated by TcpConnection as gone, which the property leaves open",
+        "a small SO_SNDBUF is put on the listening socket from outside (found with getsockname) so that large responses are written in several pieces; "
+        "nothing inside the server is touched",
+        "handlers are released before Server::cleanup()/destruction except in the live leg, where completion after cleanup() (but before destruction) is exercised "
+        "for memory safety only",
+    ],
+    technique=("runtime monitoring: the real RequestParser and the real http::server::Server (loopback TCP, real event loop driven pass by pass) run on generated "
+               "streams, exhaustive split positions, scripted handler completion orders and hostile bytes under ASan+UBSan; requests are compared with the generator's "
+               "ground truth, the response byte stream with an ordinal-carrying reference; libFuzzer session in the thorough tier"),
+    level_text=("Every generated request stream is parsed unsegmented, at every two-way split, byte by byte and at random cut sets and must give the generator's "
+                "request sequence; every scripted pipeline against the live server must deliver each request once and put each response on the wire exactly once in "
+                "request order, stop at the closing request and close; hostile bytes, vanishing clients and late completions must not throw, crash or trip "
+                "AddressSanitizer/UBSan. The completion-order space for up to 4 pipelined requests is enumerated completely. Held on the cases explored, not a proof."),
+    level_note=("trusts the generator's ground truth (independent of the library's tables), the client-side response parser, loopback TCP ordering, gcc ASan/UBSan; "
+                "timing is logical (loop passes), never wall-clock"),
+    required_counters={"quick": _RC_PARSER + _RC_SERVER, "thorough": _RC_PARSER + _RC_SERVER + _RC_FUZZ},
 )
